@@ -1,5 +1,7 @@
-"""C15 — serialisation customisation is scoped and faithful: pickle part (E2) [+ executor part, to come]"""
+"""C15 — serialisation customisation is scoped and faithful: pickle part (E2, M6) + pickler-at-submit on the real executor (E1 oracle)"""
 from ..composite import Composite
+from ..e1 import E1Part
 from .C15_pickle import PART
 
-PROP = Composite("C15", [PART])
+E1 = E1Part("C15", [("pickler", 1)], ["C15"], [], quick=500, thorough=10000, lockstep_on=False)
+PROP = Composite("C15", [PART, E1])
